@@ -68,6 +68,8 @@ func storedIntoField(st *ssa.Store) *types.Var {
 	switch a := st.Addr.(type) {
 	case *ssa.FieldAddr:
 		return fieldOfAddr(a)
+	case *ssa.Parameter:
+		return containerFieldOfRecv(a)
 	case *ssa.IndexAddr:
 		// append idiom: t = new [1]T; t[0] = v; s = t[:]; r = append(x, s...); *field = r
 		al, ok := a.X.(*ssa.Alloc)
@@ -89,6 +91,11 @@ func storedIntoField(st *ssa.Store) *types.Var {
 				}
 				for _, r3 := range *call.Referrers() {
 					if s3, ok := r3.(*ssa.Store); ok {
+						if prm, ok := s3.Addr.(*ssa.Parameter); ok {
+							if f := containerFieldOfRecv(prm); f != nil {
+								return f
+							}
+						}
 						if fa, ok := s3.Addr.(*ssa.FieldAddr); ok {
 							return fieldOfAddr(fa)
 						}
